@@ -165,7 +165,7 @@ theorem tmp_processPatchM (o : Options) : Inv Tmp (processPatchM o) := by
   · intro format
     exact inv_processSection (I' := fun _ _ => Tmp) format tmp_framed (fun _ _ => tmp_framed) (fun _ _ => tmp_createTemp)
       (fun _ _ _ h => h) (fun _ _ _ h => h) (fun _ a b => tmp_sec o a b)
-  · exact tr_finalizeDeferred (fun s0 hs0 => ⟨Tmp, tmp_framed, hs0, fun _ _ => tmp_path _, fun _ _ => tmp_path _, fun _ h => h⟩)
+  · exact tr_finalizeDeferred (fun s0 hs0 => ⟨Tmp, tmp_framed, hs0, fun _ _ => ⟨tmp_path _, tmp_path _, ⟨fun _ _ => tmp_op nofun⟩⟩, fun _ _ => tmp_path _, fun _ h => h⟩)
 
 /-- temporaries never outlive the operation that follows their creation: every `tmpCreate` in the trace of any run (dry or not)
     is immediately followed by `tmpUnlink` -/
